@@ -159,14 +159,19 @@ class ThreadSched:
     def is_client_thread(self) -> bool:
         return _thread.get_ident() in self._idents
 
-    def blocked_on_lock(self, spins: int) -> None:
-        """The baton holder cannot take a lock of the code under simulation: run somebody else, retry later."""
+    def blocked_on_lock(self, spins: int, timed: bool = False) -> bool:
+        """The baton holder cannot take a lock of the code under simulation: run somebody else, retry later.
+
+        Returns False when the wait has a timeout and that timeout is taken to have elapsed (simulated time
+        passes while the others run: after a number of hand-overs, or at once when nobody else is alive)."""
         me = self.current
         if me is None:
-            return
+            return True
+        live = [c for c in self.clients if not c.done and c is not me]
+        if timed and (spins > 40 or not live):
+            return False
         if spins > 400:
             raise LockDeadlock(f"client {me.name} still cannot take a lock after yielding {spins} times")
-        live = [c for c in self.clients if not c.done and c is not me]
         if not live:
             raise LockDeadlock(f"client {me.name} waits for a lock nobody alive holds")
         target = live[self.choose(len(live), "lock-wait")]
@@ -180,6 +185,7 @@ class ThreadSched:
         if not me.sem.acquire(timeout=WAIT_S):
             self.failed = f"client {me.name} never got the baton back"
             raise HarnessError(self.failed)
+        return True
 
     def yield_point(self) -> None:
         """Voluntary yield at an operation boundary (called from client code)."""
